@@ -1326,19 +1326,32 @@ Proof.
     rewrite Hs. symmetry. apply Hwf. left. exact H.
 Qed.
 
-Lemma rt_loop_spec p bd sc : wf_body bd -> replayable bd ->
+Lemma serve_eq cn bd st bh t :
+  serve cn bd st bh t =
+  (fst (take_body (b_read bh) (s_rest st)), mkSt (snd (take_body (b_read bh) (s_rest st))) (s_calls st),
+   (if ended_at cn t || cancelled_before cn (t + b_lat bh) then cancel_outcome cn else b_out bh),
+   (if ended_at cn t || cancelled_before cn (t + b_lat bh) then cancel_clock cn t else t + b_lat bh)).
+Proof.
+  unfold serve. destruct (take_body (b_read bh) (s_rest st)) as [g r].
+  destruct (ended_at cn t || cancelled_before cn (t + b_lat bh)); reflexivity.
+Qed.
+
+(* with any context: the loop computes the specification with cancellation *)
+Lemma rt_loop_spec_c p cn bd sc : wf_body bd -> replayable bd ->
   forall fuel i st t tr, s_rest st = bdata bd ->
-    let out := rt_loop fuel p None bd st (skipn i sc) t (Z.of_nat i) tr in
-    o_res out = fst (fst (spec_run p bd sc t i fuel)) /\
-    o_time out = snd (fst (spec_run p bd sc t i fuel)) /\
-    attempts (o_trace out) = attempts tr ++ snd (spec_run p bd sc t i fuel).
+    let out := rt_loop fuel p cn bd st (skipn i sc) t (Z.of_nat i) tr in
+    o_res out = fst (fst (spec_run_c p cn bd sc t i fuel)) /\
+    o_time out = snd (fst (spec_run_c p cn bd sc t i fuel)) /\
+    attempts (o_trace out) = attempts tr ++ snd (spec_run_c p cn bd sc t i fuel).
 Proof.
   intros Hwf Hrep. induction fuel as [|fuel IH]; intros i st t tr Hst.
   - cbn. rewrite app_nil_r. auto.
-  - cbn [rt_loop spec_run]. unfold rt_step. rewrite next_beh_skipn, serve_none_eq, Hst.
+  - cbn [rt_loop spec_run_c]. unfold rt_step. rewrite next_beh_skipn, serve_eq, Hst.
     set (bh := nth i sc default_beh).
     set (got := fst (take_body (b_read bh) (bdata bd))).
-    destruct (generic_retry p (Z.of_nat i) (b_out bh)) as [| |d|] eqn:Hg;
+    set (o := if ended_at cn t || cancelled_before cn (t + b_lat bh) then cancel_outcome cn else b_out bh).
+    set (t1 := if ended_at cn t || cancelled_before cn (t + b_lat bh) then cancel_clock cn t else t + b_lat bh).
+    destruct (generic_retry p (Z.of_nat i) o) as [| |d|] eqn:Hg;
       try (cbn [o_res o_time o_trace fst snd]; rewrite attempts_app; cbn [attempts]; auto).
     destruct (d <? 0) eqn:Hd;
       [cbn [o_res o_time o_trace fst snd]; rewrite attempts_app; cbn [attempts]; auto|].
@@ -1346,25 +1359,40 @@ Proof.
                 (mkSt (snd (take_body (b_read bh) (bdata bd))) (s_calls st)) Hwf Hrep) as (st2 & Hrw & Hfresh).
     { destruct Hrep as [Hr|Hr]; [right; exact Hr|left]. cbn [s_rest].
       rewrite (Hwf (or_introl Hr)), take_body_nil. reflexivity. }
-    rewrite Hrw, pause_cancelled_none.
-    replace (Z.of_nat i + 1) with (Z.of_nat (S i)) by lia.
-    specialize (IH (S i) st2 (t + b_lat bh + d) ((tr ++ [EAttempt t got]) ++ [EPause (t + b_lat bh) d]) Hfresh).
-    cbv zeta in IH. destruct IH as (R & T & A).
-    destruct (spec_run p bd sc (t + b_lat bh + d) (S i) fuel) as [[r te] l].
-    cbn [fst snd] in *. rewrite R, T, A. rewrite !attempts_app. cbn [attempts]. rewrite app_nil_r, <- app_assoc.
-    auto.
+    rewrite Hrw.
+    destruct (pause_cancelled cn (t1 + d)).
+    + cbn [o_res o_time o_trace fst snd]. rewrite !attempts_app. cbn [attempts]. rewrite app_nil_r. auto.
+    + replace (Z.of_nat i + 1) with (Z.of_nat (S i)) by lia.
+      specialize (IH (S i) st2 (t1 + d) ((tr ++ [EAttempt t got]) ++ [EPause t1 d]) Hfresh).
+      cbv zeta in IH. destruct IH as (R & T & A).
+      destruct (spec_run_c p cn bd sc (t1 + d) (S i) fuel) as [[r te] l].
+      cbn [fst snd] in *. rewrite R, T, A. rewrite !attempts_app. cbn [attempts]. rewrite app_nil_r, <- app_assoc.
+      auto.
 Qed.
+
+Lemma round_trip_refines_spec_c_st p cn bd sc t st :
+  wf_body bd -> replayable bd -> s_rest st = bdata bd ->
+  let out := round_trip p cn bd st sc t in
+  (o_res out, o_time out, attempts (o_trace out)) = spec_send_c p cn bd sc t.
+Proof.
+  intros Hwf Hrep Hst. unfold round_trip, spec_send_c.
+  destruct (rt_loop_spec_c p cn bd sc Hwf Hrep (rt_fuel p) 0%nat st t [] Hst) as (R & T & A).
+  cbn [skipn Z.of_nat app] in *. rewrite R, T, A.
+  destruct (spec_run_c p cn bd sc t 0 (rt_fuel p)) as [[r te] l]. reflexivity.
+Qed.
+
+(* for every context (never ending, ending at any instant, over before the call) *)
+Lemma round_trip_refines_spec_c p cn bd sc t :
+  wf_body bd -> replayable bd ->
+  let out := round_trip p cn bd (init_state bd) sc t in
+  (o_res out, o_time out, attempts (o_trace out)) = spec_send_c p cn bd sc t.
+Proof. intros Hwf Hrep. apply round_trip_refines_spec_c_st; auto. Qed.
 
 Lemma round_trip_refines_spec p bd sc t :
   wf_body bd -> replayable bd ->
   let out := round_trip p None bd (init_state bd) sc t in
   (o_res out, o_time out, attempts (o_trace out)) = spec_send p bd sc t.
-Proof.
-  intros Hwf Hrep. unfold round_trip, spec_send.
-  destruct (rt_loop_spec p bd sc Hwf Hrep (rt_fuel p) 0%nat (init_state bd) t [] eq_refl) as (R & T & A).
-  cbn [skipn Z.of_nat app] in *. rewrite R, T, A.
-  destruct (spec_run p bd sc t 0 (rt_fuel p)) as [[r te] l]. reflexivity.
-Qed.
+Proof. exact (round_trip_refines_spec_c p None bd sc t). Qed.
 
 (* the arithmetic of ExponentialBackoff as translated from the source, in closed form *)
 Lemma exp_arith_eq e attempt :
@@ -1382,12 +1410,7 @@ Lemma round_trip_refines_spec_st p bd sc t st :
   wf_body bd -> replayable bd -> s_rest st = bdata bd ->
   let out := round_trip p None bd st sc t in
   (o_res out, o_time out, attempts (o_trace out)) = spec_send p bd sc t.
-Proof.
-  intros Hwf Hrep Hst. unfold round_trip, spec_send.
-  destruct (rt_loop_spec p bd sc Hwf Hrep (rt_fuel p) 0%nat st t [] Hst) as (R & T & A).
-  cbn [skipn Z.of_nat app] in *. rewrite R, T, A.
-  destruct (spec_run p bd sc t 0 (rt_fuel p)) as [[r te] l]. reflexivity.
-Qed.
+Proof. exact (round_trip_refines_spec_c_st p None bd sc t st). Qed.
 
 Lemma rewind_replayable bd st :
   wf_body bd -> replayable bd -> (bk bd = KNone \/ bk bd = KNoBody -> s_rest st = []) ->
@@ -1398,39 +1421,46 @@ Proof.
   - exists st. split; [reflexivity|]. rewrite Hs by (left; exact H). symmetry. apply Hwf. left. exact H.
 Qed.
 
+Lemma auth_do_tok_at_refines_spec_c p cn bd sc tb tsc t0 :
+  wf_body bd -> replayable bd -> wf_body tb -> replayable tb ->
+  let a := auth_do_tok_at p cn bd sc tb tsc t0 in
+  (ak_res a, ak_time a, attempts (ak_first a), attempts (ak_token a), attempts (ak_second a))
+  = spec_auth_at_c p cn bd sc tb tsc t0.
+Proof.
+  intros Hwf Hrep Hwt Hrt. unfold auth_do_tok_at, spec_auth_at_c.
+  pose proof (round_trip_refines_spec_c_st p cn bd sc t0 (init_state bd) Hwf Hrep eq_refl) as E1. cbv zeta in E1.
+  destruct (round_trip_bodies_gen p cn bd sc 0%nat (init_state bd) t0 Hwf eq_refl) as (_ & S1 & N1).
+  cbn [skipn Nat.add] in S1, N1.
+  set (o1 := round_trip p cn bd (init_state bd) sc t0) in *.
+  destruct (spec_send_c p cn bd sc t0) as [[r1 t1] l1]. injection E1 as Er Et El. rewrite Er.
+  destruct (challenged r1); [|cbn [ak_res ak_time ak_first ak_token ak_second attempts]; congruence].
+  destruct (rewind_replayable bd (o_st o1) Hwf Hrep N1) as (st2 & Hrw & Hfresh).
+  destruct (bearer_challenged r1); cbn [negb orb].
+  - unfold fetch_token.
+    pose proof (round_trip_refines_spec_c_st p cn tb tsc (o_time o1) (init_state tb) Hwt Hrt eq_refl) as EK. cbv zeta in EK.
+    set (ok := round_trip p cn tb (init_state tb) tsc (o_time o1)) in *.
+    rewrite <- Et. destruct (spec_send_c p cn tb tsc (o_time o1)) as [[kr kt] kl]. injection EK as Kr Kt Kl.
+    cbn [k_ok k_res k_trace k_time]. rewrite Kr.
+    destruct (token_ok kr).
+    + rewrite Hrw. cbn [ak_res ak_time ak_first ak_token ak_second].
+      pose proof (round_trip_refines_spec_c_st p cn bd (o_script o1) (o_time ok) st2 Hwf Hrep Hfresh) as E2. cbv zeta in E2.
+      rewrite S1, El, Kt in E2.
+      destruct (spec_send_c p cn bd (skipn (length l1) sc) kt) as [[r2 t2] l2]. injection E2 as R2 T2 L2.
+      rewrite <- Kt in *. congruence.
+    + cbn [ak_res ak_time ak_first ak_token ak_second attempts]. congruence.
+  - cbn [k_ok k_time k_trace]. rewrite Hrw. cbn [ak_res ak_time ak_first ak_token ak_second attempts].
+    pose proof (round_trip_refines_spec_c_st p cn bd (o_script o1) (o_time o1) st2 Hwf Hrep Hfresh) as E2. cbv zeta in E2.
+    rewrite S1, El, Et in E2.
+    destruct (spec_send_c p cn bd (skipn (length l1) sc) t1) as [[r2 t2] l2]. injection E2 as R2 T2 L2.
+    congruence.
+Qed.
+
 Lemma auth_do_tok_at_refines_spec p bd sc tb tsc t0 :
   wf_body bd -> replayable bd -> wf_body tb -> replayable tb ->
   let a := auth_do_tok_at p None bd sc tb tsc t0 in
   (ak_res a, ak_time a, attempts (ak_first a), attempts (ak_token a), attempts (ak_second a))
   = spec_auth_at p bd sc tb tsc t0.
-Proof.
-  intros Hwf Hrep Hwt Hrt. unfold auth_do_tok_at, spec_auth_at.
-  pose proof (round_trip_refines_spec_st p bd sc t0 (init_state bd) Hwf Hrep eq_refl) as E1. cbv zeta in E1.
-  destruct (round_trip_bodies_gen p None bd sc 0%nat (init_state bd) t0 Hwf eq_refl) as (_ & S1 & N1).
-  cbn [skipn Nat.add] in S1, N1.
-  set (o1 := round_trip p None bd (init_state bd) sc t0) in *.
-  destruct (spec_send p bd sc t0) as [[r1 t1] l1]. injection E1 as Er Et El. rewrite Er.
-  destruct (challenged r1); [|cbn [ak_res ak_time ak_first ak_token ak_second attempts]; congruence].
-  destruct (rewind_replayable bd (o_st o1) Hwf Hrep N1) as (st2 & Hrw & Hfresh).
-  destruct (bearer_challenged r1); cbn [negb orb].
-  - unfold fetch_token.
-    pose proof (round_trip_refines_spec_st p tb tsc (o_time o1) (init_state tb) Hwt Hrt eq_refl) as EK. cbv zeta in EK.
-    set (ok := round_trip p None tb (init_state tb) tsc (o_time o1)) in *.
-    rewrite <- Et. destruct (spec_send p tb tsc (o_time o1)) as [[kr kt] kl]. injection EK as Kr Kt Kl.
-    cbn [k_ok k_res k_trace k_time]. rewrite Kr.
-    destruct (token_ok kr).
-    + rewrite Hrw. cbn [ak_res ak_time ak_first ak_token ak_second].
-      pose proof (round_trip_refines_spec_st p bd (o_script o1) (o_time ok) st2 Hwf Hrep Hfresh) as E2. cbv zeta in E2.
-      rewrite S1, El, Kt in E2.
-      destruct (spec_send p bd (skipn (length l1) sc) kt) as [[r2 t2] l2]. injection E2 as R2 T2 L2.
-      rewrite <- Kt in *. congruence.
-    + cbn [ak_res ak_time ak_first ak_token ak_second attempts]. congruence.
-  - cbn [k_ok k_time k_trace]. rewrite Hrw. cbn [ak_res ak_time ak_first ak_token ak_second attempts].
-    pose proof (round_trip_refines_spec_st p bd (o_script o1) (o_time o1) st2 Hwf Hrep Hfresh) as E2. cbv zeta in E2.
-    rewrite S1, El, Et in E2.
-    destruct (spec_send p bd (skipn (length l1) sc) t1) as [[r2 t2] l2]. injection E2 as R2 T2 L2.
-    congruence.
-Qed.
+Proof. exact (auth_do_tok_at_refines_spec_c p None bd sc tb tsc t0). Qed.
 
 (* blobStore.Mount declined with 202: the upload reads from an io.ReadCloser (GetBody nil): the
    PUT is exactly one request, whatever the registry answers *)
@@ -1577,35 +1607,43 @@ Lemma auth_do_tok_refines_spec p bd sc tb tsc :
   = spec_auth p bd sc tb tsc.
 Proof. exact (fun H1 H2 H3 H4 => auth_do_tok_at_refines_spec p bd sc tb tsc 0 H1 H2 H3 H4). Qed.
 
+Lemma plain_tok_at_refines_spec_c p cn bd sc t0 :
+  wf_body bd -> replayable bd ->
+  let a := plain_tok_at p cn bd sc t0 in
+  (ak_res a, ak_time a, attempts (ak_first a), attempts (ak_token a), attempts (ak_second a))
+  = spec_plain_at_c p cn bd sc t0.
+Proof.
+  intros Hwf Hrep. unfold plain_tok_at, spec_plain_at_c. cbn [ak_res ak_time ak_first ak_token ak_second attempts].
+  pose proof (round_trip_refines_spec_c_st p cn bd sc t0 (init_state bd) Hwf Hrep eq_refl) as E. cbv zeta in E.
+  destruct (spec_send_c p cn bd sc t0) as [[r t] l]. injection E as -> -> ->. reflexivity.
+Qed.
+
 Lemma plain_tok_at_refines_spec p bd sc t0 :
   wf_body bd -> replayable bd ->
   let a := plain_tok_at p None bd sc t0 in
   (ak_res a, ak_time a, attempts (ak_first a), attempts (ak_token a), attempts (ak_second a))
   = spec_plain_at p bd sc t0.
-Proof.
-  intros Hwf Hrep. unfold plain_tok_at, spec_plain_at. cbn [ak_res ak_time ak_first ak_token ak_second attempts].
-  pose proof (round_trip_refines_spec_st p bd sc t0 (init_state bd) Hwf Hrep eq_refl) as E. cbv zeta in E.
-  destruct (spec_send p bd sc t0) as [[r t] l]. injection E as -> -> ->. reflexivity.
-Qed.
+Proof. exact (plain_tok_at_refines_spec_c p None bd sc t0). Qed.
 
 Definition show_authk (a : authk_out) :=
   (ak_res a, ak_time a, attempts (ak_first a), attempts (ak_token a), attempts (ak_second a)).
 
-(* the whole blob push (POST, token requests, PUT) refines the stateless spec_push *)
-Lemma blob_push_tok_refines_spec authc p bd sc tb tsc :
+(* the whole blob push (POST, token requests, PUT) refines the stateless spec_push_c, for every
+   context *)
+Lemma blob_push_tok_refines_spec_c authc p cn bd sc tb tsc :
   wf_body bd -> replayable bd -> wf_body tb -> replayable tb ->
-  let u := blob_push_tok authc p None bd sc tb tsc in
+  let u := blob_push_tok authc p cn bd sc tb tsc in
   (uk_res u, uk_time u, show_authk (uk_post u), option_map show_authk (uk_put u))
-  = spec_push authc p bd sc tb tsc.
+  = spec_push_c authc p cn bd sc tb tsc.
 Proof.
-  intros Hwf Hrep Hwt Hrt. unfold blob_push_tok, spec_push.
+  intros Hwf Hrep Hwt Hrt. unfold blob_push_tok, spec_push_c.
   assert (Hnb : wf_body no_body) by (intros _; reflexivity).
   assert (Hrn : replayable no_body) by (right; reflexivity).
-  assert (Hpost : show_authk (if authc then auth_do_tok_at p None no_body sc tb tsc 0 else plain_tok_at p None no_body sc 0)
-                  = (if authc then spec_auth_at p no_body sc tb tsc 0 else spec_plain_at p no_body sc 0)).
-  { destruct authc; [apply auth_do_tok_at_refines_spec|apply plain_tok_at_refines_spec]; assumption. }
-  set (post := if authc then auth_do_tok_at p None no_body sc tb tsc 0 else plain_tok_at p None no_body sc 0) in *.
-  destruct (if authc then spec_auth_at p no_body sc tb tsc 0 else spec_plain_at p no_body sc 0)
+  assert (Hpost : show_authk (if authc then auth_do_tok_at p cn no_body sc tb tsc 0 else plain_tok_at p cn no_body sc 0)
+                  = (if authc then spec_auth_at_c p cn no_body sc tb tsc 0 else spec_plain_at_c p cn no_body sc 0)).
+  { destruct authc; [apply auth_do_tok_at_refines_spec_c|apply plain_tok_at_refines_spec_c]; assumption. }
+  set (post := if authc then auth_do_tok_at p cn no_body sc tb tsc 0 else plain_tok_at p cn no_body sc 0) in *.
+  destruct (if authc then spec_auth_at_c p cn no_body sc tb tsc 0 else spec_plain_at_c p cn no_body sc 0)
     as [[[[r t] l1] kl] l2] eqn:Esp.
   unfold show_authk in Hpost. injection Hpost as Er Et E1 Ek E2.
   rewrite Er. destruct (accepted r); cbn [uk_res uk_time uk_post uk_put option_map].
@@ -1613,16 +1651,23 @@ Proof.
   unfold authk_attempts. rewrite E1, E2, Ek, Et.
   set (sc' := skipn (length (l1 ++ l2)) sc). set (tsc' := skipn (length kl) tsc).
   assert (Hput : show_authk (if authc && negb match l2 with [] => false | _ :: _ => true end
-                             then auth_do_tok_at p None bd sc' tb tsc' t else plain_tok_at p None bd sc' t)
+                             then auth_do_tok_at p cn bd sc' tb tsc' t else plain_tok_at p cn bd sc' t)
                  = (if authc && negb match l2 with [] => false | _ :: _ => true end
-                    then spec_auth_at p bd sc' tb tsc' t else spec_plain_at p bd sc' t)).
+                    then spec_auth_at_c p cn bd sc' tb tsc' t else spec_plain_at_c p cn bd sc' t)).
   { destruct (authc && negb match l2 with [] => false | _ :: _ => true end);
-      [apply auth_do_tok_at_refines_spec|apply plain_tok_at_refines_spec]; assumption. }
+      [apply auth_do_tok_at_refines_spec_c|apply plain_tok_at_refines_spec_c]; assumption. }
   set (put := if authc && negb match l2 with [] => false | _ :: _ => true end
-              then auth_do_tok_at p None bd sc' tb tsc' t else plain_tok_at p None bd sc' t) in *.
+              then auth_do_tok_at p cn bd sc' tb tsc' t else plain_tok_at p cn bd sc' t) in *.
   rewrite <- Hput. unfold show_authk at 2 3. cbn [fst snd].
   unfold show_authk. rewrite Er, Et, E1, Ek, E2. reflexivity.
 Qed.
+
+Lemma blob_push_tok_refines_spec authc p bd sc tb tsc :
+  wf_body bd -> replayable bd -> wf_body tb -> replayable tb ->
+  let u := blob_push_tok authc p None bd sc tb tsc in
+  (uk_res u, uk_time u, show_authk (uk_post u), option_map show_authk (uk_put u))
+  = spec_push authc p bd sc tb tsc.
+Proof. exact (blob_push_tok_refines_spec_c authc p None bd sc tb tsc). Qed.
 
 (* ------------------------------------------------------------------ *)
 (* auth.Client.Do with a warm Bearer cache and the token request spelled out *)
@@ -1764,4 +1809,111 @@ Proof.
     apply Forall_app. split; [apply pauses_done_weaken; exact D2|].
     eapply Forall_impl; [|exact PK]. intros pd [A|[A B]]; [left; exact A|right].
     split; [apply token_error_ctx; exact A|exact B].
+Qed.
+
+(* the warm-cache auth flow (cached token, then fresh token) refines its stateless specification,
+   for every context *)
+Lemma auth_do_tokw_at_refines_spec_c p cn bd sc tb tsc t0 :
+  wf_body bd -> replayable bd -> wf_body tb -> replayable tb ->
+  let a := auth_do_tokw_at p cn bd sc tb tsc t0 in
+  (aw_res a, aw_time a, attempts (aw_first a), attempts (aw_second a), attempts (aw_token a), attempts (aw_third a))
+  = spec_authw_at_c p cn bd sc tb tsc t0.
+Proof.
+  intros Hwf Hrep Hwt Hrt. unfold auth_do_tokw_at, spec_authw_at_c.
+  pose proof (round_trip_refines_spec_c_st p cn bd sc t0 (init_state bd) Hwf Hrep eq_refl) as E1. cbv zeta in E1.
+  destruct (round_trip_bodies_gen p cn bd sc 0%nat (init_state bd) t0 Hwf eq_refl) as (_ & S1 & N1).
+  cbn [skipn Nat.add] in S1, N1.
+  set (o1 := round_trip p cn bd (init_state bd) sc t0) in *.
+  destruct (spec_send_c p cn bd sc t0) as [[r1 t1] l1]. injection E1 as Er Et El. rewrite Er.
+  destruct (challenged r1); [|cbn [aw_res aw_time aw_first aw_second aw_token aw_third attempts]; congruence].
+  destruct (rewind_replayable bd (o_st o1) Hwf Hrep N1) as (st2 & Hrw & Hfresh). rewrite Hrw.
+  pose proof (round_trip_refines_spec_c_st p cn bd (o_script o1) (o_time o1) st2 Hwf Hrep Hfresh) as E2. cbv zeta in E2.
+  destruct (round_trip_bodies_gen p cn bd sc (length (attempts (o_trace o1))) st2 (o_time o1) Hwf Hfresh)
+    as (_ & S2 & N2).
+  rewrite <- S1 in S2, N2.
+  set (o2 := round_trip p cn bd st2 (o_script o1) (o_time o1)) in *.
+  rewrite S1, El, Et in E2.
+  destruct (spec_send_c p cn bd (skipn (length l1) sc) t1) as [[r2 t2] l2]. injection E2 as Er2 Et2 El2. rewrite Er2.
+  destruct (bearer_challenged r1 && unauthorized r2);
+    [|cbn [aw_res aw_time aw_first aw_second aw_token aw_third attempts]; congruence].
+  unfold fetch_token.
+  pose proof (round_trip_refines_spec_c_st p cn tb tsc (o_time o2) (init_state tb) Hwt Hrt eq_refl) as EK. cbv zeta in EK.
+  set (ok := round_trip p cn tb (init_state tb) tsc (o_time o2)) in *.
+  rewrite Et2 in EK. destruct (spec_send_c p cn tb tsc t2) as [[kr kt] kl]. injection EK as Kr Kt Kl.
+  cbn [k_ok k_res k_trace k_time]. rewrite Kr.
+  destruct (token_ok kr); [|cbn [aw_res aw_time aw_first aw_second aw_token aw_third attempts]; congruence].
+  destruct (rewind_replayable bd (o_st o2) Hwf Hrep N2) as (st3 & Hrw3 & Hfresh3). rewrite Hrw3.
+  cbn [aw_res aw_time aw_first aw_second aw_token aw_third].
+  pose proof (round_trip_refines_spec_c_st p cn bd (o_script o2) (o_time ok) st3 Hwf Hrep Hfresh3) as E3. cbv zeta in E3.
+  rewrite S2, El, El2, Kt in E3.
+  destruct (spec_send_c p cn bd (skipn (length l1 + length l2) sc) kt) as [[r3 t3] l3]. injection E3 as R3 T3 L3.
+  congruence.
+Qed.
+
+(* ------------------------------------------------------------------ *)
+(* Soundness of the acceptor up to its allowances: a pause it accepts is the clamp of a value
+   that lies within the rounding allowances of the model's exact range *)
+
+Lemma clamp_max_min minw maxw x : minw <= maxw -> clamp minw maxw x = Z.max minw (Z.min maxw x).
+Proof.
+  intro H. unfold clamp. destruct (x <? minw) eqn:A.
+  - destruct (minw >? maxw) eqn:B; lia.
+  - destruct (x >? maxw) eqn:B; lia.
+Qed.
+
+Lemma clamp_ivt minw maxw lo hi d :
+  minw <= maxw -> lo <= hi -> clamp minw maxw lo <= d <= clamp minw maxw hi ->
+  exists x, lo <= x <= hi /\ d = clamp minw maxw x.
+Proof.
+  intros Hm Hl Hd. exists (Z.max lo (Z.min hi d)). split; [lia|].
+  rewrite !clamp_max_min in * by exact Hm. lia.
+Qed.
+
+Lemma exp_class_range guarded e attempt o lo hi :
+  exp_class guarded e attempt o = ECRange lo hi ->
+  lo <= hi /\
+  ((generated_backoff_retry_after_ok (retry_after_secs o) = true /\
+    lo = wrap64 (retry_after_secs o * generated_backoff_retry_after_unit) /\ hi = lo) \/
+   (generated_backoff_retry_after_ok (retry_after_secs o) = false /\
+    qtrunc (exp_a e attempt) - tol_a e attempt <= lo /\
+    hi <= qtrunc (exp_a e attempt) + Z.max 0 (qtrunc (exp_n e attempt)) + tol_a e attempt + tol_n e attempt)).
+Proof.
+  unfold exp_class. cbv zeta.
+  pose proof (tol_a_pos e attempt) as Hta. pose proof (tol_n_pos e attempt) as Htn.
+  destruct (generated_backoff_retry_after_ok (retry_after_secs o)) eqn:Hra.
+  - intro E. injection E as <- <-. split; [lia|]. left. auto.
+  - destruct (qnear (exp_n e attempt) 1); [discriminate|].
+    destruct (two63 - tol_n e attempt <=? qtrunc (exp_n e attempt)); [discriminate|].
+    destruct (qtrunc (exp_n e attempt) <=? 0) eqn:En.
+    + destruct guarded; [|discriminate].
+      destruct ((- two63 + tol_a e attempt <? qtrunc (exp_a e attempt)) && (qtrunc (exp_a e attempt) + tol_a e attempt <? two63));
+        [|discriminate].
+      intro E. injection E as <- <-. apply Z.leb_le in En. split; [lia|]. right. repeat split; auto; lia.
+    + destruct ((- two63 + tol_a e attempt <? qtrunc (exp_a e attempt)) &&
+                (qtrunc (exp_a e attempt) + qtrunc (exp_n e attempt) + tol_a e attempt + tol_n e attempt <? two63));
+        [|discriminate].
+      intro E. injection E as <- <-. apply Z.leb_gt in En. split; [lia|]. right. repeat split; auto; lia.
+Qed.
+
+Lemma accept_decision_sound guarded maxretry minw maxw e attempt o d :
+  minw <= maxw ->
+  accept_decision guarded maxretry minw maxw e attempt o (ODWait d) = VYes ->
+  attempt < maxretry /\ default_predicate o = PRetry /\
+  exists x, d = clamp minw maxw x /\
+    ((generated_backoff_retry_after_ok (retry_after_secs o) = true /\
+      x = wrap64 (retry_after_secs o * generated_backoff_retry_after_unit)) \/
+     (generated_backoff_retry_after_ok (retry_after_secs o) = false /\
+      qtrunc (exp_a e attempt) - tol_a e attempt <= x <=
+      qtrunc (exp_a e attempt) + Z.max 0 (qtrunc (exp_n e attempt)) + tol_a e attempt + tol_n e attempt)).
+Proof.
+  intro Hm. unfold accept_decision.
+  destruct (attempt >=? maxretry) eqn:Ea; [discriminate|].
+  destruct (default_predicate o); try discriminate.
+  destruct (exp_class guarded e attempt o) as [|lo hi|] eqn:Ec; try discriminate.
+  destruct ((clamp minw maxw lo <=? d) && (d <=? clamp minw maxw hi)) eqn:Ed; [|discriminate].
+  intros _. apply andb_true_iff in Ed. destruct Ed as [E1 E2]. apply Z.leb_le in E1, E2.
+  destruct (exp_class_range guarded e attempt o lo hi Ec) as (Hl & Hr).
+  destruct (clamp_ivt minw maxw lo hi d Hm Hl (conj E1 E2)) as (x & Hx & Hd).
+  split; [lia|]. split; [reflexivity|]. exists x. split; [exact Hd|].
+  destruct Hr as [(R1 & R2 & R3)|(R1 & R2 & R3)]; [left|right]; split; auto; lia.
 Qed.
